@@ -62,5 +62,13 @@ def run(chk):
             s2 = [c for c in sched]
             tr2 = et.replay_then_resume(prog, s2, ext)
             items.append((label, prog, ext, tr2, s2 + [["snapshot+resume"]]))
-    eg.standard_run(chk, "C10", None, {"wait_ret", "wait_timeout", "pub"}, key_of=key_of, nontrivial=nontrivial,
+            # serialised a second time right after the resume (before the waiter has been re-established), resumed again;
+            # the non-matching response comes first
+            ext_rev = list(reversed(ext))
+            tr3 = et.replay_then_resume(prog, s2, ext_rev, resumes=2)
+            items.append((label + " twice", prog, ext_rev, tr3, s2 + [["snapshot+resume", 2]]))
+            # ... and loaded + serialised again without being run in between
+            tr4 = et.replay_then_resume(prog, s2, ext_rev, reserialize=True)
+            items.append((label + " reserialized", prog, ext_rev, tr4, s2 + [["snapshot+load+snapshot+resume"]]))
+    eg.standard_run(chk, "C10", None, {"wait_ret", "wait_timeout", "pub", "step_end"}, key_of=key_of, nontrivial=nontrivial,
                     keep=keep, items=items)
